@@ -291,6 +291,26 @@ def shrink_candidates(case, prop):
         yield mk(sp2={"profile": "sync", "seed": 0})
         if sp.get("profile") != "zero":
             yield mk(sp2={"profile": "zero", "seed": sp.get("seed", 0)})
+    # 1b. zero individual delay keys (delays are keyed by (sid, ordinal, phase), so the rest of
+    # the schedule is unchanged): halves first, then single keys
+    if sp.get("profile") not in ("sync", "zero"):
+        try:
+            r0 = runner.execute(sc, sp, faults=case.get("faults"))
+            keys = sorted(k for k, d in r0.sched.used.items() if d and k not in set(sp.get("zeroed", ())))
+        except Exception:  # noqa: BLE001
+            keys = []
+        already = list(sp.get("zeroed", ()))
+        if keys:
+            h = len(keys) // 2
+            parts = [keys[:h], keys[h:]] if h else []
+            q = len(keys) // 4
+            if q:
+                parts += [keys[:q], keys[q:2 * q], keys[2 * q:3 * q], keys[3 * q:]]
+            for part in parts:
+                if part:
+                    yield mk(sp2=dict(sp, zeroed=already + part))
+            for k in keys[:30]:
+                yield mk(sp2=dict(sp, zeroed=already + [k]))
     # 2. drop simulators
     n = len(sc["sims"])
     for i in reversed(range(n)):
